@@ -250,6 +250,202 @@ def trace_of(model, backend):
     return [t[c] for c in "xyzijk"]
 
 
+# ------------------------------------------------------------------------------------------------------------------
+# place_and_orient_model3d against Display.placeModel (driver `disp place`): dyadic data, every number is sent as an
+# integer multiple of 1/64 (integer vertices and positions, octahedral rotations, scale / length_factor powers of two)
+Q = 64
+
+
+def _q(x):
+    return str(int(round(float(x) * Q)))
+
+
+def _enc_tval(v):
+    if v[0] == "o":
+        return f"o {v[1]}"
+    a = np.asarray(v[1])
+    return f"a {a.ndim} {' '.join(map(str, a.shape))} {a.size} {' '.join(_q(t) for t in a.reshape(-1))}"
+
+
+def _canon_tval(v):
+    """canonical text of a value found in a real trace dict / args (None if it cannot be put on the 1/64 grid)"""
+    if isinstance(v, str):
+        return f"o {v[1:]}"
+    a = np.asarray(v, dtype=float)
+    g = a * Q
+    r = np.rint(g)
+    if a.size and np.max(np.abs(g - r)) > 1e-6:
+        return None
+    return f"a {a.ndim} {' '.join(map(str, a.shape))} {a.size} {' '.join(str(int(t)) for t in r.reshape(-1))}"
+
+
+def _norm(t):
+    return " ".join(t.split())
+
+
+def gen_place(rng):
+    from vlib.octa import OCTA
+    n = rng.randint(1, 5)
+    shape = (n,) if rng.random() < 0.75 else (rng.randint(1, 3), rng.randint(1, 3))
+    coords = [np.array([rng.randint(-5, 5) for _ in range(int(np.prod(shape)))]).reshape(shape) for _ in range(3)]
+    mode = rng.choice(["keys", "keys", "keys", "keys-custom", "args", "args", "args-custom", "both"])
+    others = [("type", ("o", rng.randint(0, 9))), ("i", ("a", np.array([rng.randint(0, 4) for _ in range(rng.randint(1, 4))]))),
+              ("color", ("o", rng.randint(0, 9))), ("opacity", ("a", np.array(rng.choice([0.5, 1.0, 0.25]))))]
+    others = [o for o in others if rng.random() < 0.6]
+    kw, args, ca = [], None, None
+    names = ("x", "y", "z")
+    if mode in ("keys", "both"):
+        kw = [(k, ("a", c)) for k, c in zip(names, coords)]
+    elif mode == "keys-custom":
+        names = tuple(rng.sample(["u", "v", "w", "x", "y", "z"], 3))
+        kw = [(k, ("a", c)) for k, c in zip(names, coords)]
+        ca = ("k",) + names
+    if mode in ("args", "both"):
+        acoords = coords if mode == "args" else [c + 1 for c in coords]
+        args = [("a", c) for c in acoords] + ([("o", 7)] if rng.random() < 0.3 else [])
+    elif mode == "args-custom":
+        perm = rng.sample(range(4), 3)
+        args = [("o", 3)] * 4
+        for j, c in zip(perm, coords):
+            args[j] = ("a", c)
+        ca = ("a",) + tuple(perm)
+    elif rng.random() < 0.3:
+        args = []
+    kw = kw + others
+    rng.shuffle(kw)
+    fault = rng.random()
+    if fault < 0.05 and mode.startswith("keys") and kw:  # a coordinate key is missing
+        kw = [e for e in kw if e[0] != names[rng.randrange(3)]]
+    elif fault < 0.08 and mode.startswith("args"):  # an args index beyond the tuple
+        ca = ("a", 0, 1, len(args))
+    elif fault < 0.13:  # coordinate arrays of different shapes
+        bad = ("a", np.array([rng.randint(-5, 5) for _ in range(n + 1)]))
+        if mode in ("args", "both"):
+            args[1] = bad
+        elif mode == "args-custom":
+            args[ca[2]] = bad
+        else:
+            kw = [(k, bad) if k == names[1] else (k, v) for k, v in kw]
+    extra = []
+    for _ in range(rng.choice([0, 0, 1, 2])):
+        k = rng.choice(["name", "type", "x", "legendgroup"])
+        if k not in [e[0] for e in extra]:
+            extra.append((k, ("o", rng.randint(10, 19))))
+    pw = lambda: 1 if rng.random() < 0.5 else 2.0 ** rng.randint(-2, 3)
+    return {"kw": kw, "args": args, "ca": ca, "ori": None if rng.random() < 0.4 else rng.randrange(24),
+            "pos": None if rng.random() < 0.4 else [rng.randint(-6, 6) for _ in range(3)], "scale": pw(), "f": pw(), "extra": extra,
+            "ret": (rng.random() < 0.6, rng.random() < 0.5), "style": rng.randrange(3), "OCTA": None}
+
+
+def place_line(c):
+    from vlib.octa import OCTA
+    kv = lambda l: f"{len(l)} " + " ".join(f"{k} {_enc_tval(v)}" for k, v in l)
+    a = "0" if c["args"] is None else f"1 {len(c['args'])} " + " ".join(_enc_tval(v) for v in c["args"])
+    r = "0" if c["ori"] is None else "1 " + " ".join(_q(t) for t in np.asarray(OCTA[c["ori"]]).reshape(-1))
+    x = "0" if c["pos"] is None else "1 " + " ".join(_q(t) for t in c["pos"])
+    ca = "0" if c["ca"] is None else f"1 {c['ca'][0]} " + " ".join(map(str, c["ca"][1:]))
+    return _norm(f"disp place K {kv(c['kw'])} A {a} R {r} X {x} C {ca} S {_q(c['scale'])} F {_q(c['f'])} E {kv(c['extra'])} "
+                 f"RET {int(c['ret'][0])} {int(c['ret'][1])}")
+
+
+def real_place(c):
+    """returns (canonical line, notes)"""
+    import copy
+
+    from magpylib._src.display.traces_utility import place_and_orient_model3d
+    from vlib.octa import OCTA, rot_from
+
+    def val(v):
+        if v[0] == "o":
+            return f"t{v[1]}"
+        a = np.asarray(v[1])
+        return [a.copy(), a.astype(float), a.tolist()][c["style"]]
+
+    model_kwargs = {k: val(v) for k, v in c["kw"]}
+    model_args = None if c["args"] is None else (tuple if c["style"] != 1 else list)(val(v) for v in c["args"])
+    coordsargs = None if c["ca"] is None else {k: (n if c["ca"][0] == "k" else f"args[{n}]") for k, n in zip("xyz", c["ca"][1:])}
+    position = None if c["pos"] is None else [np.array(c["pos"]), tuple(c["pos"]), list(c["pos"])][c["style"]]
+    orientation = None if c["ori"] is None else rot_from(OCTA[c["ori"]])
+    extra = {k: val(v) for k, v in c["extra"]}
+    snap = copy.deepcopy((model_kwargs, model_args, coordsargs, position, extra))
+    kwargs = dict(model_args=model_args, orientation=orientation, position=position, coordsargs=coordsargs,
+                  return_model_args=c["ret"][0], return_coordsargs=c["ret"][1], **extra)
+    if c["scale"] != 1 or c["style"] == 0:
+        kwargs["scale"] = c["scale"]
+    if c["f"] != 1 or c["style"] == 0:
+        kwargs["length_factor"] = c["f"]
+    try:
+        out = place_and_orient_model3d(model_kwargs, **kwargs)
+    except ValueError:
+        return "err ValueError", []
+    except IndexError:
+        return "err IndexError", []
+    except Exception as e:
+        return f"EXC {type(e).__name__}: {str(e)[:120]}", []
+    notes = []
+
+    def same(a, b):
+        if isinstance(a, dict):
+            return isinstance(b, dict) and list(a) == list(b) and all(same(a[k], b[k]) for k in a)
+        if isinstance(a, (list, tuple)) and not (a and isinstance(a[0], (int, float))):
+            return type(a) is type(b) and len(a) == len(b) and all(same(u, w) for u, w in zip(a, b))
+        if isinstance(a, np.ndarray):
+            return isinstance(b, np.ndarray) and a.dtype == b.dtype and a.shape == b.shape and np.array_equal(a, b)
+        return type(a) is type(b) and a == b
+
+    if not same(snap, (model_kwargs, model_args, coordsargs, position, extra)):
+        notes.append("an input (model_kwargs / model_args / coordsargs / position / kwargs) was modified")
+    nret = 1 + c["ret"][0] + c["ret"][1]
+    if nret == 1:
+        out = (out,)
+    if not isinstance(out, tuple) or len(out) != nret:
+        return f"RETURN-ARITY {type(out).__name__}", notes
+    d = out[0]
+    parts = [(k, _canon_tval(v)) for k, v in d.items()]
+    a = ca = "-"
+    if c["ret"][0]:
+        ra = out[1]
+        a = "none" if ra is None else f"{len(ra)} " + " ".join(str(_canon_tval(v)) for v in ra)
+    if c["ret"][1]:
+        rc = out[-1]
+        ca = "none" if rc is None else " ".join(rc[k] for k in "xyz")
+    if any(t is None for _, t in parts) or "None" in a:
+        return "UNSNAPPABLE", notes
+    return _norm(f"ok {len(parts)} " + " ".join(f"{k} {t}" for k, t in parts) + f" | {a} | {ca}"), notes
+
+
+def run_place(ctx, n, stats):
+    cases = [gen_place(ctx.rng) for _ in range(n)]
+    out = run_driver([place_line(c) for c in cases])
+    st = {"place": 0, "place_errors": {}, "place_early_return": 0, "place_scale_ignored_in_early_return": 0, "place_rotated": 0, "place_args": 0,
+          "place_custom_coordsargs": 0, "place_2d_arrays": 0, "place_extra_overrides": 0, "place_inputs_compared_before_after": 0, "place_distinct": 0}
+    seen = set()
+    for c, mo in zip(cases, out):
+        real, notes = real_place(c)
+        mo = _norm(mo)
+        st["place"] += 1
+        early = c["ori"] is None and c["pos"] is None and c["f"] == 1
+        st["place_early_return"] += early
+        st["place_scale_ignored_in_early_return"] += early and c["scale"] != 1
+        st["place_rotated"] += c["ori"] is not None
+        st["place_args"] += c["args"] is not None and len(c["args"]) > 0
+        st["place_custom_coordsargs"] += c["ca"] is not None
+        st["place_2d_arrays"] += any(v[0] == "a" and np.asarray(v[1]).ndim == 2 for _, v in c["kw"])
+        st["place_extra_overrides"] += any(k in [e[0] for e in c["kw"]] for k, _ in c["extra"])
+        st["place_inputs_compared_before_after"] += real.startswith("ok")
+        if real.startswith("err"):
+            st["place_errors"][real] = st["place_errors"].get(real, 0) + 1
+        seen.add(real)
+        if real != mo or notes:
+            stats["disagreements"] += 1
+            if stats["disagreements"] <= 3:
+                c = {k: (v if not isinstance(v, np.ndarray) else v.tolist()) for k, v in c.items()}
+                ctx.broken.append({"kind": "correspondence", "name": "disp-place", "detail": {"line": place_line(c)[:500], "model": mo[:500], "real": real[:500], "notes": notes}})
+    st["place_distinct"] = len(seen)
+    stats.update(st)
+    stats["distinct"] += len(seen)
+
+
 def run_stream(ctx, n):
     import magpylib as magpy
     from magpylib._src.display import traces_base as tb
@@ -372,4 +568,6 @@ def run_stream(ctx, n):
                     ctx.broken.append({"kind": "correspondence", "name": "disp", "detail": {"line": line, "case": repr(c)[:300], "model": mo[:400], "real": real[:400]}})
     stats["distinct"] = len(seen)
     stats["samples"] = samples
+    # place_and_orient_model3d rows (the `place` of Props/C19 place_is_pose / place_inverse / place_preserves_extent)
+    run_place(ctx, max(40, n // 2), stats)
     return stats
